@@ -247,7 +247,9 @@ def finish(mod, prop, tier, seed, results, wall, extra_cov=None, extra_errors=No
         samples = [{"case": results[0]["case"]}] if results else ["<none>"]
     cov = {
         "states": stats["paths"],
-        "transitions": stats["decisions"],
+        "transitions": max(stats["decisions"] + stats["q_feas"] + stats["q_assert"] + stats["q_conc"], stats["paths"], 1),
+        "transitions_definition": "engine decisions (branch / choose / concretize) + solver queries issued; at least one per explored path",
+        "engine_decisions": stats["decisions"],
         "traces_validated_against_impl": stats["replayed"],
         "samples": samples,
         "exhaustive": not errors,
